@@ -367,6 +367,23 @@ func evalSna(p *Prog, fn *ssa.Function, st snaState, depth int) (bool, string) {
 						return false, "unsupported distance comparison"
 					}
 					env[x] = aVal{kind: "bool", b: v}
+				case l.kind == "dist" && r.kind == "int" && r.n == 0:
+					// unsigned distance against 0: only the zero class equals 0
+					z := l.d == dZero
+					var v bool
+					switch x.Op {
+					case token.EQL, token.LEQ:
+						v = z
+					case token.NEQ, token.GTR:
+						v = !z
+					case token.GEQ:
+						v = true
+					case token.LSS:
+						v = false
+					default:
+						return false, "unsupported distance comparison with 0"
+					}
+					env[x] = aVal{kind: "bool", b: v}
 				case l.kind == "sdist" && r.kind == "int" && r.n == 0:
 					v, ok := cmpSignedZero(l.d, x.Op)
 					if !ok {
